@@ -2,6 +2,7 @@ package main
 
 import (
 	"fmt"
+	"os"
 	"strconv"
 	"strings"
 	"sync"
@@ -61,7 +62,12 @@ var degraded atomic.Bool
 
 func patience() time.Duration {
 	if degraded.Load() {
-		return time.Second
+		return 400 * time.Millisecond
+	}
+	if v := os.Getenv("C02_PATIENCE_MS"); v != "" { // set by the check while shrinking an already failing case
+		if n, err := strconv.Atoi(v); err == nil && n > 0 {
+			return time.Duration(n) * time.Millisecond
+		}
 	}
 	return 10 * time.Second
 }
